@@ -147,7 +147,14 @@ func runC08(r *core.Run) {
 		}
 		c08Eval(r, c)
 		r.Distinct(core.HashStr(string(c.Pre) + string(c.Race.Render()) + string(c.Post)))
-		r.Mark("variants", fmt.Sprintf("ops=%d creates=%d unknown=%v post=%v args=%v", len(c.Race.Ops), len(c.Race.Creates), c.Unknown != 0, c.Post != "", c.Race.WithArgs))
+		addrs := map[uint64]bool{}
+		for _, op := range c.Race.Ops {
+			addrs[op.Addr] = true
+		}
+		if len(addrs) > 1 {
+			r.Count("reports_with_different_addresses", 1)
+		}
+		r.Mark("variants", fmt.Sprintf("ops=%d creates=%d unknown=%v post=%v args=%v addrs=%v", len(c.Race.Ops), len(c.Race.Creates), c.Unknown != 0, c.Post != "", c.Race.WithArgs, len(addrs) > 1))
 		if i < 2 {
 			r.Sample(map[string]any{"input": core.Trunc(string(c.Pre)+string(c.Race.Render())+string(c.Post), 1500)})
 		}
